@@ -76,7 +76,10 @@ def history(rnd, hist_id, length):
             plan.append('op')
             ops.append({'op': 'model.snap', 'm': m, 'rebuild': True})
             plan.append('snap')
-    if rnd.random() < 0.2:
+    # at most ONE of the directed motifs below per history (each adds elements to the first base set; together they would
+    # make every later power set in the history several times larger)
+    which = rnd.choice(['retype', 'failed-calc', 'func-edit', 'none', 'none'])
+    if which == 'retype' and rnd.random() < 0.6:
         # a structure typed through ANOTHER structure holds data; then the other one is redefined so that the dependant keeps being
         # correctly defined but with a typification of another shape (set <-> element <-> pair)
         first, dep, value, second = rnd.choice([
@@ -97,7 +100,7 @@ def history(rnd, hist_id, length):
             plan.append('op')
             ops.append({'op': 'model.snap', 'm': m, 'rebuild': True})
             plan.append('snap')
-    if rnd.random() < 0.15:
+    if which == 'failed-calc' and rnd.random() < 0.6:
         # a calculation that is refused at run time (debool of a two-element set), then an edit of the global it used, then a
         # calculation of ANOTHER constituent over the same global: no successful evaluation in between
         motif = [{'op': 'model.op', 'm': m, 'k': 'addelem', 'uid': {'idx': 0}, 'name': 'f1'}, {'op': 'model.op', 'm': m, 'k': 'addelem', 'uid': {'idx': 0}, 'name': 'f2'},
@@ -114,7 +117,7 @@ def history(rnd, hist_id, length):
             plan.append('op')
             ops.append({'op': 'model.snap', 'm': m, 'rebuild': True})
             plan.append('snap')
-    if shape == 'funcs' and rnd.random() < 0.5:
+    if shape == 'funcs' and which == 'func-edit':
         # the same caller is calculated immediately before and after the body of the function it calls (directly / through another
         # function) is edited: nothing else is evaluated on this model in between
         caller = rnd.choice([4, 11])
